@@ -758,6 +758,26 @@ func (e *exec) doOp(op Op) {
 			e.releaseOne(abs(pk))
 		}
 		bubble.Wait()
+	case "FP":
+		// release the oldest (N=0) or newest (N=1) in-flight item of priority P
+		e.mu.Lock()
+		pos := -1
+		for i, di := range e.live {
+			if e.tr.Deliveries[di].It.P == op.P {
+				pos = i
+				if op.N == 0 {
+					break
+				}
+			}
+		}
+		term := e.terminated
+		e.mu.Unlock()
+		if pos < 0 || term {
+			noop()
+			return
+		}
+		e.releaseOne(pos)
+		bubble.Wait()
 	case "T":
 		if op.N <= 0 {
 			noop()
